@@ -45,6 +45,10 @@ def configs(tier):
         add(spec('global', 'gauss-laguerre', 2, 1, 2, transform=1, alpha=1.5), 0, 1); add(spec('global', 'gauss-gegenbauer', 2, 1, 3, alpha=2.0), 0, 2); add(spec('sequence', 'rleja', 2, 1, 3), 0, 2); add(spec('fourier', 'fourier', 2, 1, 2), 0, 1)
         add(spec('global', 'clenshaw-curtis', 2, 2, 3), 1); add(spec('sequence', 'leja', 2, 2, 3), 1); add(spec('fourier', 'fourier', 2, 1, 2), 1); add(spec('global', 'gauss-legendre', 2, 1, 2), 1)
     else:
+        for t in ('curved', 'ipcurved', 'qpcurved'):
+            for lim in (0, 1, 3):
+                add(spec('sequence', 'leja', 2, 1, 3, t, aniso=4, limits=lim)); add(spec('global', 'gauss-legendre', 2, 1, 3, t, aniso=4, limits=lim)); add(spec('sequence', 'rleja', 3, 1, 3, t, aniso=4, limits=lim))
+                if t != 'curved': add(spec('global', 'clenshaw-curtis', 2, 1, 3, t, aniso=4, limits=lim))
         for rule in NESTED_GLOBAL + NON_NESTED:
             abl = JAC.get(rule, [(None, None)])
             for (a, b) in abl:
